@@ -9,6 +9,8 @@ import (
 	"fmt"
 	"go/ast"
 	"go/constant"
+	"go/parser"
+	"go/token"
 	"go/types"
 	"path/filepath"
 	"reflect"
@@ -125,6 +127,13 @@ func (V *Verifier) scanAutoCLI() []*Oblig {
 			}
 		}
 		add("descriptors-are-registered", okReg, "the module value given to the application implements autocli's HasAutoCLIConfig (AutoCLIOptions() *autocliv1.ModuleOptions), so the descriptors checked below are the commands of the binary", detail)
+	}
+	// ... and when the root command hands them to autocli: NewRootCmd injects an autocli.AppOptions, calls its
+	// EnhanceRootCommand on the command it returns (unconditionally, error => panic), and main executes that command.
+	// (Source-level obligation on cmd/fundraisingd: the package is not loaded with types, it links the whole application.)
+	{
+		okRoot, detail := V.rootCmdEnhanced()
+		add("root-command-is-enhanced-with-the-descriptors", okRoot, "cmd.NewRootCmd returns the command on which autocli.AppOptions.EnhanceRootCommand was called with the injected module options, and main executes it", detail)
 	}
 	used := map[string]map[string]bool{"Query": {}, "Tx": {}}
 	names := map[string]map[string]string{"Query": {}, "Tx": {}}
@@ -449,4 +458,163 @@ func kebabCase(s string) string {
 		}
 	}
 	return b.String()
+}
+
+// rootCmdEnhanced checks cmd/fundraisingd/cmd/root.go and cmd/fundraisingd/main.go at the syntax level.
+func (V *Verifier) rootCmdEnhanced() (bool, string) {
+	parse := func(rel string) (*ast.File, error) {
+		b, err := V.readFile(filepath.Join(V.repo, rel))
+		if err != nil {
+			return nil, err
+		}
+		return parser.ParseFile(token.NewFileSet(), rel, b, 0)
+	}
+	f, err := parse("cmd/fundraisingd/cmd/root.go")
+	if err != nil {
+		return false, err.Error()
+	}
+	autocliName := ""
+	for _, im := range f.Imports {
+		if strings.Trim(im.Path.Value, "\"") == "cosmossdk.io/client/v2/autocli" {
+			autocliName = "autocli"
+			if im.Name != nil {
+				autocliName = im.Name.Name
+			}
+		}
+	}
+	if autocliName == "" {
+		return false, "root.go does not import cosmossdk.io/client/v2/autocli"
+	}
+	var fn *ast.FuncDecl
+	for _, d := range f.Decls {
+		if fd, ok := d.(*ast.FuncDecl); ok && fd.Name.Name == "NewRootCmd" && fd.Recv == nil {
+			fn = fd
+		}
+	}
+	if fn == nil || fn.Body == nil {
+		return false, "cmd.NewRootCmd not found"
+	}
+	// the options variable: declared with type autocli.AppOptions
+	optVar := ""
+	ast.Inspect(fn.Body, func(n ast.Node) bool {
+		if vs, ok := n.(*ast.ValueSpec); ok {
+			if se, ok := vs.Type.(*ast.SelectorExpr); ok {
+				if id, ok := se.X.(*ast.Ident); ok && id.Name == autocliName && se.Sel.Name == "AppOptions" && len(vs.Names) == 1 {
+					optVar = vs.Names[0].Name
+				}
+			}
+		}
+		return true
+	})
+	if optVar == "" {
+		return false, "NewRootCmd declares no autocli.AppOptions variable"
+	}
+	isAddrOfOpt := func(e ast.Expr) bool {
+		u, ok := e.(*ast.UnaryExpr)
+		if !ok || u.Op != token.AND {
+			return false
+		}
+		id, ok := u.X.(*ast.Ident)
+		return ok && id.Name == optVar
+	}
+	injected, enhancedCmd, returned := false, "", ""
+	for _, st := range fn.Body.List { // top-level statements only: nothing conditional
+		switch t := st.(type) {
+		case *ast.IfStmt:
+			as, ok := t.Init.(*ast.AssignStmt)
+			if !ok || len(as.Rhs) != 1 {
+				continue
+			}
+			call, ok := as.Rhs[0].(*ast.CallExpr)
+			if !ok {
+				continue
+			}
+			sel, ok := call.Fun.(*ast.SelectorExpr)
+			if !ok {
+				continue
+			}
+			// the guarded body must panic
+			panics := false
+			for _, b := range t.Body.List {
+				if es, ok := b.(*ast.ExprStmt); ok {
+					if c, ok := es.X.(*ast.CallExpr); ok {
+						if id, ok := c.Fun.(*ast.Ident); ok && id.Name == "panic" {
+							panics = true
+						}
+					}
+				}
+			}
+			cond, isBin := t.Cond.(*ast.BinaryExpr)
+			if !panics || !isBin || cond.Op != token.NEQ {
+				continue
+			}
+			if id, ok := sel.X.(*ast.Ident); ok && id.Name == "depinject" && sel.Sel.Name == "Inject" {
+				for _, a := range call.Args[1:] {
+					if isAddrOfOpt(a) {
+						injected = true
+					}
+				}
+			}
+			if id, ok := sel.X.(*ast.Ident); ok && id.Name == optVar && sel.Sel.Name == "EnhanceRootCommand" && len(call.Args) == 1 {
+				if a, ok := call.Args[0].(*ast.Ident); ok {
+					enhancedCmd = a.Name
+				}
+			}
+		case *ast.ReturnStmt:
+			if len(t.Results) == 1 {
+				if id, ok := t.Results[0].(*ast.Ident); ok {
+					returned = id.Name
+				}
+			}
+		}
+	}
+	nret := 0
+	ast.Inspect(fn.Body, func(n ast.Node) bool {
+		if _, isLit := n.(*ast.FuncLit); isLit {
+			return false
+		}
+		if _, ok := n.(*ast.ReturnStmt); ok {
+			nret++
+		}
+		return true
+	})
+	switch {
+	case !injected:
+		return false, "the autocli.AppOptions variable is not an output of depinject.Inject (error => panic) in NewRootCmd"
+	case enhancedCmd == "":
+		return false, "NewRootCmd does not call " + optVar + ".EnhanceRootCommand(cmd) unconditionally with its error ending in a panic"
+	case returned != enhancedCmd || nret != 1:
+		return false, fmt.Sprintf("NewRootCmd enhances %s but returns %s (%d return statements)", enhancedCmd, returned, nret)
+	}
+	// main: rootCmd := cmd.NewRootCmd(); svrcmd.Execute(rootCmd, ...)
+	m, err := parse("cmd/fundraisingd/main.go")
+	if err != nil {
+		return false, err.Error()
+	}
+	rootVar, executed := "", false
+	ast.Inspect(m, func(n ast.Node) bool {
+		switch t := n.(type) {
+		case *ast.AssignStmt:
+			if len(t.Lhs) == 1 && len(t.Rhs) == 1 {
+				if c, ok := t.Rhs[0].(*ast.CallExpr); ok {
+					if se, ok := c.Fun.(*ast.SelectorExpr); ok && se.Sel.Name == "NewRootCmd" {
+						if id, ok := t.Lhs[0].(*ast.Ident); ok {
+							rootVar = id.Name
+						}
+					}
+				}
+			}
+		case *ast.CallExpr:
+			if se, ok := t.Fun.(*ast.SelectorExpr); ok && se.Sel.Name == "Execute" && len(t.Args) >= 1 {
+				if id, ok := t.Args[0].(*ast.Ident); ok && rootVar != "" && id.Name == rootVar {
+					executed = true
+				}
+			}
+		}
+		return true
+	})
+	if !executed {
+		return false, "main does not execute the command returned by cmd.NewRootCmd"
+	}
+	return true, fmt.Sprintf("NewRootCmd: %s injected, %s.EnhanceRootCommand(%s), return %s; main executes it", optVar, optVar, enhancedCmd, returned)
 }
